@@ -140,7 +140,8 @@ def replay_case(col, item):
         return False
     # >= 1000 pairs (the alternative row-assignment path): every 9th case, and every case in which the pairs of
     # some reference point are NOT adjacent in the pair list
-    tile = 260 if (n % 9 == 0 or ((scattered(a["pairs"], 0) or scattered(a["pairs"], 1)) and n % 2 == 0)) else 1
+    big = 1000 // len(a["pairs"]) + 7              # enough repetitions to exceed 1000 pairs whatever the base size
+    tile = big if (n % 9 == 0 or ((scattered(a["pairs"], 0) or scattered(a["pairs"], 1)) and n % 2 == 0)) else 1
     conf = {"tile": tile}
     ds = build(a, tile)
     check_expand(col, a, a["expand"], ds, "expand", conf)
